@@ -81,7 +81,7 @@ def main():
     with concurrent.futures.ThreadPoolExecutor(max_workers=jobs) as ex:
         list(ex.map(one, todo))
     for k in range(jobs):
-        sh('rm -rf /tmp/verif_snap%d /tmp/verif_kani_target_w%d' % (k, k))
+        sh('rm -rf /tmp/verif_snap%d /tmp/verif_kani_target_w%d /tmp/verif_kani_target_w%d_check /tmp/verif_kani_target_w%d_playback /tmp/verif_kani_target_w%d.lock' % (k, k, k, k, k))
         sh('git -C /repo worktree remove --force /tmp/wt/scratch%d' % k)
 
 
